@@ -1,4 +1,4 @@
-CONSTANTS Scope = "tiny" OneByOne = TRUE Mutant = "none"
+CONSTANTS Scope = "tiny" OneByOne = TRUE Mutant = "none" Pick = {}
 SPECIFICATION Spec
 INVARIANT TypeOK
 INVARIANT Inv_Fail
